@@ -202,6 +202,7 @@ PROPS = {
     "C15": dict(
         harnesses=[
             dict(run="pkg/zzc15.VerifC15Restart", quick=dict(attempts=3, oraclefaults=0), thorough=dict(attempts=3, oraclefaults=0), covers=["failed-writes-consumed-revisions", "follower-sync", "done"], no_native=True),
+            dict(run="pkg/zzc15.VerifC15Gate", quick=dict(preempt=2), thorough=dict(preempt=3), covers=["restart-same-identity", "client-served-by-new-leader", "client-turned-away", "done"], no_native=True),
             dict(run="pkg/zzc15.VerifC15Restart", name="C15_oraclefault", quick=dict(attempts=1, oraclefaults=3), thorough=dict(attempts=2, oraclefaults=4), covers=["oracle-fault-during-takeover", "follower-sync", "done"], no_native=True),
         ],
         bounds=dict(quick="old leader elected through the real election path, 3 write attempts with symbolic expected revisions (any mix of successes, failed conditions and future-revision rejections) each optionally followed by a lock renewal; new node with 0..2 follower revision syncs in any order, elected over the same store; engine clock contract: wall clock/PD timestamp (>= 1 unit per attempt) or count of committed transactions; separately (1 write attempt): the engine's timestamp oracle fails once at any of its first 3 calls during the take-over and the elector runs one more round",
